@@ -977,8 +977,13 @@ class PolygonalROI(VertexROIBase):
         # for linear (1D) "polygons" centroid is not defined; neither is it for
         # self-intersecting polygons whose signed area cancels. Compare against
         # rounding error (relative to the extent) rather than for exact zero.
+        # Vertices far from the origin (e.g. on a time axis) additionally carry
+        # a rounding error relative to their magnitude once they have been moved
+        # or rotated, which limits the accuracy of the area to about
+        # eps * |v| * extent per vertex.
         extent = np.ptp(self.vx) + np.ptp(self.vy)
-        if self.area() <= 1e-12 * extent ** 2:
+        noise = np.finfo(float).eps * (np.max(np.abs(self.vx)) + np.max(np.abs(self.vy)))
+        if self.area() <= 1e-12 * extent ** 2 + 4 * len(self.vx) * noise * extent:
             return self.mean()
         else:
             return self.centroid()
